@@ -28,6 +28,21 @@ ShrArgs ==
 
 RuAll == {0, RuMaxAll}
 
+\* representative destination tables for clone_from: unallocated, empty, empty with tombstones
+\* (the D6 shape), full; every bucket count up to the bound
+DestTables ==
+    {HB!NewTbl} \cup
+    UNION {{HB!Tbl(b, 0, Cap(b)), HB!Tbl(b, Cap(b), 0)} \cup
+           (IF b >= GW THEN {HB!Tbl(b, 0, Cap(b) - 3), HB!Tbl(b, 0, 2), HB!Tbl(b, 2, Cap(b) - 5)} ELSE {})
+           : b \in {x \in {4, 8, 16, 32, 64, 128, 256} : x <= MaxB}}
+
+\* C11 (count level): clone / clone_from leave a well-formed, unsplit map with every element of the source
+CloneContract ==
+    Ok => /\ \A ru \in RuAll : CloneSelf_En(ru) =>
+                LET P == CloneSelf_Post(ru) IN P.err = "none" => (PLen(P) = Len /\ ~P.oP /\ PCap(P) >= Len)
+          /\ \A D \in DestTables, ru \in RuAll : CloneFromInto_En(D, ru) =>
+                LET P == CloneFromInto_Post(D, ru) IN P.err = "none" => (PLen(P) = Len /\ ~P.oP /\ PCap(P) >= Len)
+
 MCInit == \E c \in InitCaps : InitWith(c)
 
 Next ==
@@ -42,6 +57,7 @@ Next ==
     \/ \E n \in ResArgs, ru \in RuAll : ReserveCall(n, ru)
     \/ \E m \in ShrArgs : ShrinkTo(m)
     \/ \E ru \in RuAll : CloneSelf(ru)
+    \/ \E D \in DestTables, ru \in RuAll : CloneFromInto(D, ru)
 
 MCSpec == MCInit /\ [][Next]_vars
 
